@@ -196,6 +196,37 @@ def run_case(case):
             if spec["reuse"] and spec.get("common_glyph") is not None and ("inconsistent formats between masters" in out or "fonts contains incompatible glyphs" in out):
                 # known finding F23: which glyph donates a shared outline follows each master's own source order
                 mech = "F23-vf-reuse-donor-follows-per-master-source-order"
+            if mech is None and spec["reuse"] and ("inconsistent formats between masters" in out or "fonts contains incompatible glyphs" in out):
+                # F32: with reuse on, each master decides for itself which shapes are affine images of which (all ellipses
+                # are, within the tolerance or not); when the masters decide differently their paint graphs and outline
+                # glyph sets differ although the sources have one structure.  Shown by building every master alone.
+                try:
+                    sigs = []
+                    scfg_ = {k: v for k, v in cfg.items() if k not in ("axis", "master", "output_file")}
+                    for m_ in range(len(spec["locations"])):
+                        b_ = inproc.build([{"svg": svg_for(spec, g, m_), "codepoints": [0x1F600 + g]} for g in range(len(names))], scfg_)
+                        colr_ = b_.font["COLR"].table
+                        sig = []
+                        for rec in colr_.BaseGlyphList.BaseGlyphPaintRecord:
+                            stack, fm = [rec.Paint], []
+                            while stack:
+                                p_ = stack.pop()
+                                fm.append((int(p_.Format), getattr(p_, "Glyph", None)))
+                                for a_ in ("Paint", "SourcePaint", "BackdropPaint"):
+                                    if getattr(p_, a_, None) is not None:
+                                        stack.append(getattr(p_, a_))
+                                if int(p_.Format) == 1:
+                                    stack.extend(colr_.LayerList.Paint[p_.FirstLayerIndex : p_.FirstLayerIndex + p_.NumLayers])
+                            sig.append((rec.BaseGlyph, tuple(sorted(fm, key=str))))
+                        sigs.append((tuple(sig), tuple(sorted(g_ for g_ in b_.font.getGlyphOrder()))))
+                    if len(set(sigs)) > 1:
+                        mech = "F32-vf-reuse-decisions-differ-per-master"
+                    elif len(set(sigs)) == 1:
+                        # the same graph shape in every master, but a re-used outline is stored from the first master's
+                        # geometry of *another* shape: check with reuse off
+                        pass
+                except Exception:
+                    pass
             res["violations"].append(dict(ctx, what=f"variable build failed (exit {rcode}) although the masters are structurally compatible", output=out[:3000], mechanism=mech, sources=[svg_for(spec, 0, m) for m in range(len(spec["positions"]))]))
             return res
         vf = TTFont(str(root / "build" / "VF.ttf"), lazy=False)
